@@ -217,6 +217,10 @@ func (s *vSess) doCall() {
 	tr.mu.Unlock()
 	ctx, cancel := context.WithCancel(context.Background())
 	c := &vSessCall{side: side, token: token, cancel: cancel, done: make(chan error, 1), reply: &message.Response{}}
+	if s.r.Intn(3) == 0 {
+		// the caller re-uses the reply message of an earlier call: what comes back is this call's reply and nothing else
+		c.reply = &message.Response{CallId: "reply of an earlier call", Payload: []byte("left over"), Error: "stale"}
+	}
 	arg := vAppMsg(token, pl, dir)
 	q := s.queue(map[string]string{"A": "B", "B": "A"}[side])
 	before := len(*q)
